@@ -30,6 +30,7 @@ type overrideRoles struct {
 	cr       *clientRoles
 	override *ssa.Function // maybeOverrideUnsupportedWriteConsistency
 	member   *ssa.Function // isUnsupportedWriteConsistency
+	helpers  map[*ssa.Function]bool // private helpers of the override between it and the membership test
 	reencode []*ssa.Function
 }
 
@@ -56,13 +57,51 @@ func getOverrideRoles(p *Prog) *overrideRoles {
 	if or.member == nil {
 		fatalf("anchor: no client method reads Config.UnsupportedWriteConsistencies")
 	}
+	// the override entry point takes (isSelect bool, raw *RawFrame, ...) and consults the
+	// membership test itself or through a private helper (which is then part of it)
+	isEntry := func(m *ssa.Function) bool {
+		hasRaw, hasBool := false, false
+		for _, par := range m.Params {
+			if typeIs(par.Type(), "frame", "RawFrame") {
+				hasRaw = true
+			}
+			if b, ok := par.Type().Underlying().(*types.Basic); ok && b.Kind() == types.Bool {
+				hasBool = true
+			}
+		}
+		return hasRaw && hasBool
+	}
+	var direct []*ssa.Function
 	for _, m := range p.methodsOf(or.cr.cl) {
 		if m != or.member && callsDirectly(m, func(c ssa.CallInstruction) bool { return c.Common().StaticCallee() == or.member }) {
-			or.override = m
+			direct = append(direct, m)
+		}
+	}
+	if len(direct) == 0 {
+		fatalf("anchor: no client method consults the unsupported-consistency test")
+	}
+	or.helpers = map[*ssa.Function]bool{}
+	for _, d := range direct {
+		if isEntry(d) {
+			or.override = d
 		}
 	}
 	if or.override == nil {
-		fatalf("anchor: no client method consults the unsupported-consistency test")
+		for _, m := range p.methodsOf(or.cr.cl) {
+			if !isEntry(m) {
+				continue
+			}
+			for _, d := range direct {
+				d := d
+				if callsDirectly(m, func(c ssa.CallInstruction) bool { return c.Common().StaticCallee() == d }) {
+					or.override = m
+					or.helpers[d] = true
+				}
+			}
+		}
+	}
+	if or.override == nil {
+		or.override = direct[len(direct)-1] // reported by the guard rule as not taking (isSelect, raw)
 	}
 	return or
 }
@@ -87,6 +126,8 @@ func checkC12(p *Prog, r *Report) {
 	c12MetadataBeforeReply(p, r, "C12.metadata-before-reply")
 	// the re-encoded request is produced by the partial codecs: their layout per version is part of this property
 	codecLayouts(p, r, "C12")
+	// the configured override level is the one used: nothing re-defaults it after parsing (ANY is the zero value)
+	r.borrow("C20", "C12", func() { c20ConfiguredValuesKept(p, r) })
 }
 
 func c12Guard(p *Prog, r *Report, or *overrideRoles) {
@@ -112,7 +153,7 @@ func c12Guard(p *Prog, r *Report, or *overrideRoles) {
 	}
 	for _, isSel := range []bool{true, false} {
 		s := newSim(p)
-		s.Inline = func(f *ssa.Function) bool { return false }
+		s.Inline = func(f *ssa.Function) bool { return or.helpers[f] }
 		s.OnInstr = func(st *State, in ssa.Instruction) {
 			stv, ok := in.(*ssa.Store)
 			if !ok {
@@ -120,10 +161,11 @@ func c12Guard(p *Prog, r *Report, or *overrideRoles) {
 			}
 			fa, ok := stv.Addr.(*ssa.FieldAddr)
 			if !ok {
-				// a store through a pointer that was chosen among several fields (p := &m.Consistency ...)
+				// a store through a pointer that was chosen among several fields (p := &m.Consistency ...),
+				// possibly handed to a private helper (&m.Consistency as an argument)
 				var fas []*ssa.FieldAddr
 				all := true
-				for _, o := range origins(stv.Addr) {
+				for _, o := range originsInter(p, stv.Addr, 2) {
 					if x, isFa := o.(*ssa.FieldAddr); isFa {
 						fas = append(fas, x)
 					} else if k, isC := o.(*ssa.Const); isC && k.Value == nil {
@@ -411,6 +453,8 @@ func c12Reencode(p *Prog, r *Report, or *overrideRoles, rule string) {
 			}
 		})
 		r.check(len(bad) == 0, rule, fn.Name(), p.Pos(fn.Pos()), "header+body reused, ConvertToRawFrame", strings.Join(dedupe(bad), " || "))
+		bad = reencodeErrorPath(p, fn)
+		r.check(len(bad) == 0, rule, fn.Name()+":error-path", p.Pos(fn.Pos()), "the converted frame is returned only when the conversion succeeded", strings.Join(dedupe(bad), " || "))
 	}
 	// no *frame.Frame allocation flows into request.frm anywhere in package proxy
 	req := p.proxyRequestType()
@@ -715,4 +759,49 @@ func c12MetadataBeforeReply(p *Prog, r *Report, rule string) {
 	}
 	storeCalls := make([]int, nstore)
 	r.check(len(bad) == 0 && len(replyCalls) > 0, rule, req.Obj().Name()+".OnResult", p.Pos(onRes.Pos()), fmt.Sprintf("%d reply site(s), %d store site(s)", len(replyCalls), len(storeCalls)), strings.Join(dedupe(bad), " || "))
+}
+
+
+// reencodeErrorPath: the frame result of a failed conversion is nil.  Returned inside an interface
+// value it is a non-nil interface holding a nil *RawFrame: the backend connection's writer
+// dereferences it and the process dies.
+func reencodeErrorPath(p *Prog, fn *ssa.Function) []string {
+	var bad []string
+	eachInstr(fn, func(in ssa.Instruction) {
+		ret, ok := in.(*ssa.Return)
+		if !ok || len(ret.Results) == 0 {
+			return
+		}
+		for _, o := range origins(ret.Results[0]) {
+			ex, ok := o.(*ssa.Extract)
+			if !ok || ex.Index != 0 {
+				continue
+			}
+			call, ok := ex.Tuple.(*ssa.Call)
+			if !ok || !call.Call.IsInvoke() || call.Call.Method.Name() != "ConvertToRawFrame" {
+				continue
+			}
+			okGuard := false
+			for _, ct := range dominatingConds(ret.Block()) {
+				bo, ok := ct.Cond.(*ssa.BinOp)
+				if !ok {
+					continue
+				}
+				isErr := func(v ssa.Value) bool {
+					e, ok := v.(*ssa.Extract)
+					return ok && e.Index == 1 && e.Tuple == ssa.Value(call)
+				}
+				isNil := func(v ssa.Value) bool { c, ok := v.(*ssa.Const); return ok && c.Value == nil }
+				if (isErr(bo.X) && isNil(bo.Y)) || (isErr(bo.Y) && isNil(bo.X)) {
+					if (bo.Op == token.NEQ && !ct.Truth) || (bo.Op == token.EQL && ct.Truth) {
+						okGuard = true
+					}
+				}
+			}
+			if !okGuard {
+				bad = append(bad, p.Pos(ret.Pos())+": the frame result of ConvertToRawFrame is returned without having established that the conversion succeeded: on an error it is a nil *RawFrame inside a non-nil interface, which the backend connection's writer dereferences (the process dies on a request that decodes but cannot be re-encoded)")
+			}
+		}
+	})
+	return bad
 }
